@@ -85,6 +85,9 @@ def cases(shard, nshards, seed, tier):
     for i in range(2 if tier == "quick" else 10):
         if mine():
             yield {"family": "batch-vs-single-3d", "module": "lib3d_batch", "i": i}
+    for i in range(1 if tier == "quick" else 4):
+        if mine():
+            yield {"family": "batch-vs-single-transformer", "module": "transform_batch", "i": i}
     nb = 20 if tier == "quick" else 200
     for i in range(nb):
         if not mine():
@@ -153,6 +156,12 @@ def _batch_case(case, rec):
                 open(pth, "w").write(str(b_) + "\n")
                 paths.append(pth)
             single = "lib2d_batch"
+        elif case["module"] == "transform_batch":
+            # files with different chain sets / first-appearance orders, edited in a row
+            cifs = [f for f in _corpus() if f.endswith(".cif") and os.path.getsize(os.path.join(core.REPO, f)) < 250_000]
+            first = [f for f in cifs if f.endswith(("4gqj-assembly1.cif", "4WTI_1_T-P.cif", "1DFU_1_M-N.cif"))]
+            paths = [os.path.join(core.REPO, f) for f in [rng.choice(first)] + rng.sample([f for f in cifs if f not in first], 3)]
+            single = "transform_batch"
         else:
             files = [f for f in _corpus() if os.path.getsize(os.path.join(core.REPO, f)) < 400_000]
             paths = [os.path.join(core.REPO, f) for f in rng.sample(files, 2)]
